@@ -36,7 +36,7 @@ Idle == [role |-> "send", M |-> 65536, W |-> 1, NB |-> 1, R |-> 1, T |-> 2,
          chk |-> TRUE, clean |-> TRUE, base0 |-> 0, lastempty |-> FALSE, devfull |-> FALSE]
 
 TraceInit ==
-  /\ l = 1 /\ dev = TRUE /\ why = "init" /\ prev = None /\ lin = None
+  /\ l = 1 /\ dev = TRUE /\ why = "init" /\ prev = <<"none">> /\ lin = None
   /\ InitWith(Idle)
 
 \* ---- a new run: reset to the initial state of its parameters ----
@@ -47,7 +47,7 @@ TCfg ==
      /\ p' = pp /\ pc' = v.pc /\ base' = v.base /\ len' = v.len /\ eof' = v.eof
      /\ retry' = v.retry /\ el' = v.el /\ out' = v.out /\ buf' = v.buf /\ file' = v.file
      /\ fexists' = v.fexists /\ ok' = v.ok /\ hi' = v.hi /\ ne' = v.ne
-  /\ dev' = FALSE /\ why' = "init" /\ prev' = None /\ lin' = None
+  /\ dev' = FALSE /\ why' = "init" /\ prev' = <<"none">> /\ lin' = None
   /\ l' = l + 1
 
 \* ---- an input: the action of Transfer selected by what recv returned ----
